@@ -172,14 +172,15 @@ Four == {{}, {"lt"}, {"eq"}, {"le", "ne"}}
 Five == {{}, {"lt"}, {"eq"}, {"lt", "eq"}, {"le", "ne"}, Ops}
 Small == {{}, {"lt"}, {"eq"}, {"lt", "eq"}, {"le", "ne"}, {"gt", "eq", "ne"}, Ops}
 Medium == Small \cup {{"ne"}, {"ge", "eq"}, {"lt", "gt"}, {"eq", "ne"}, {"lt", "le", "gt", "ge"}, {"le", "eq"}}
-(* the class C ranges over all 64 subsets when only C (and, thorough, D / O) is involved; pairs     *)
-(* with the subclass S and, in the quick profile, with O use reduced families                        *)
+(* the class C ranges over all 64 subsets in the pairs (C,C) and, thorough, (C,O), (O,C); pairs     *)
+(* with the subclass S or with D use reduced families                                                *)
 Fam(k) ==
   LET inv == Involved(l, r) IN
   CASE Profile = "quick" ->
          (IF "S" \in inv THEN Four ELSE IF "O" \in inv THEN (IF k = "O" THEN Tiny ELSE Five) ELSE All64)
     [] Profile = "thorough" ->
-         (IF "S" \in inv THEN (IF k \in {"C", "S"} THEN Small ELSE Tiny)
+         (IF "S" \in inv THEN (IF k \in {"C", "S"} THEN Five ELSE Tiny)
+          ELSE IF "D" \in inv THEN (IF k = "C" THEN Five ELSE Tiny)
           ELSE IF k = "C" THEN All64 ELSE Tiny)
     [] Profile = "strict" -> {{"lt"}, {"lt", "eq"}}
 FamOf(k) == IF k \in Involved(l, r) THEN Fam(k) ELSE {{}}
@@ -250,5 +251,5 @@ Publish == (Dump /\ IsCase) =>
 PairsCC == {<<"C", "C">>}
 PairsQuick == {<<"C", "C">>, <<"C", "O">>, <<"O", "C">>, <<"C", "S">>, <<"S", "C">>, <<"S", "S">>}
 PairsC == {<<"C", "C">>, <<"C", "O">>, <<"O", "C">>, <<"C", "D">>, <<"D", "C">>}
-PairsThorough == PairsC \cup {<<"C", "S">>, <<"S", "C">>, <<"S", "S">>, <<"S", "O">>, <<"O", "S">>, <<"S", "D">>, <<"D", "S">>}
+PairsThorough == PairsC \cup {<<"C", "S">>, <<"S", "C">>, <<"S", "S">>, <<"S", "O">>, <<"O", "S">>}
 =============================================================================
